@@ -8,7 +8,7 @@ use super::frame::{Dict, TableState, BLOCK_MAX};
 use super::fse::{self, FseEnc, NCount};
 use super::huf::{self, HufTable};
 use super::xxh64;
-use crate::engine::hexbytes;
+use crate::hexbytes;
 use serde::{Deserialize, Serialize};
 
 #[derive(Clone, Debug, Serialize, Deserialize)]
